@@ -334,6 +334,26 @@ func c18ChildB(t *testing.T) {
 		writeRep()
 		return
 	}
+	// The statement does not say that re-processing must be finished when
+	// Initialize returns: wait until the last processed block is the last
+	// accepted one; only a quiescent node that is still behind is reported.
+	caughtUp := kit.Go(func() {
+		for {
+			la := nd.snowVM.LastAcceptedBlock(ctx)
+			if out, err := nd.snowVM.GetConsensusIndex().GetLastAccepted(ctx); err == nil && out.GetID() == la.ID() {
+				return
+			}
+			time.Sleep(20 * time.Millisecond)
+		}
+	})
+	switch res, _ := kit.AwaitOrDeadlock(caughtUp, []string{"hypersdk/snow.", "hypersdk/vm.", "hypersdk/chain.", "hypersdk/internal/"}, 200*time.Millisecond, 2*time.Minute); res {
+	case kit.Returned:
+		rep.CatchUp = "ok"
+	case kit.Deadlock:
+		rep.CatchUp = "quiescent"
+	default:
+		rep.CatchUp = "unknown"
+	}
 	nd.observe(ctx, &rep)
 	writeRep() // a later asynchronous death of the process must not lose what was seen
 	if err := nd.normalOp(ctx); err != nil {
@@ -530,9 +550,13 @@ func runC18Case(t *testing.T, r *kit.Run, c c18Case, genesisBytes []byte) {
 		ok = false
 		r.Violation("C18/last-accepted-wrong-block", w, "%s: restarted node's last accepted %s at height %d is not the block built at that height (%s)", c, rep.LastID, rep.LastHeight, b.ID)
 	}
+	if (rep.ProcHeight != rep.LastHeight || rep.ProcID != rep.LastID) && rep.CatchUp != "quiescent" {
+		r.Inconclusive("%s: restarted node had processed %d of %d accepted blocks when the watchdog expired (no quiescence witness)", c, rep.ProcHeight, rep.LastHeight)
+		return
+	}
 	if rep.ProcHeight != rep.LastHeight || rep.ProcID != rep.LastID {
 		ok = false
-		r.Violation("C18/processed-behind-accepted-after-restart", w, "%s: after Initialize the last processed block is %d but the last accepted is %d", c, rep.ProcHeight, rep.LastHeight)
+		r.Violation("C18/processed-behind-accepted-after-restart", w, "%s: the restarted node is quiescent with last processed block %d but last accepted %d (state and results lag the accepted chain)", c, rep.ProcHeight, rep.LastHeight)
 	}
 	if !ok {
 		return
